@@ -107,7 +107,14 @@ struct P5 { int mask; bool operator() (long a) const { return g_sink->predicate(
 struct P6 { int mask; template <typename ...A> bool operator() (A && ...) const { return g_sink->predicate(6, -1, 0); } };
 
 struct PolDefault {};
-struct PolSingle { typedef eventpp::SingleThreading Threading; };
+// A policies struct as it would be shared with homogeneous dispatchers: besides the threading it carries a canContinueInvoking that
+// refuses every call. The heterogeneous classes keep their per-prototype lists on policies of their own, so for them it has no
+// say: "reaches exactly the callbacks bound to that prototype, in their order, once each".
+struct PolSingle
+{
+	typedef eventpp::SingleThreading Threading;
+	template <typename ...A> static bool canContinueInvoking(A && ...) { return false; }
+};
 
 // ---------------------------------------------------------------- boxes
 template <typename Pol>
@@ -1190,7 +1197,7 @@ void execute(const Plan & plan, RunOut & out)
 
 std::string describe(const Plan & plan)
 {
-	static const char * vn[] = { "HeterCallbackList", "HeterCallbackList/SingleThreading", "HeterEventDispatcher", "HeterEventQueue", "HeterEventQueue/SingleThreading", "HeterEventQueue<std::string>/ArgumentPassingIncludeEvent",
+	static const char * vn[] = { "HeterCallbackList", "HeterCallbackList/SingleThreading + a canContinueInvoking that refuses (no say here)", "HeterEventDispatcher", "HeterEventQueue", "HeterEventQueue/SingleThreading + a canContinueInvoking that refuses (no say here)", "HeterEventQueue<std::string>/ArgumentPassingIncludeEvent",
 		"HeterEventQueue<int, {void(int&), void(int)}>", "HeterEventQueue<std::string>/ArgumentPassingIncludeEvent/getEvent policy taking the event by value" };
 	static const char * names[] = { "?", "append", "prepend", "insert", "remove", "empty", "forEach", "invoke", "enqueue", "process", "processOne", "processIf", "clearEvents", "emptyQueue",
 		"copyConstruct", "copyAssign", "moveConstruct", "moveAssign", "swap", "destroy", "create" };
